@@ -169,3 +169,23 @@ func (c *Canary) VerifAgeStates(d time.Duration) {
 		}
 	}
 }
+
+// VerifTakeKnock removes one pending knock from the detector's channel, if any.
+func (c *Canary) VerifTakeKnock() interface{} {
+	select {
+	case k := <-c.knockChan:
+		return k
+	default:
+		return nil
+	}
+}
+
+// VerifFillStateTable adds n fresh states (distinct source ports of peer) through
+// the real StateTable.Add, without the per-frame lookup cost.
+func (c *Canary) VerifFillStateTable(peer, me net.IP, n int) {
+	for i := 0; i < n; i++ {
+		s := c.NewState(peer, uint16(i), me, uint16(1+i/65536))
+		s.State = SocketSynReceived
+		c.stateTable.Add(s)
+	}
+}
